@@ -1892,6 +1892,26 @@ func (c *simCtx) verdict(reach map[*ssa.BasicBlock]bool, loop *sliceRange) (bool
 						c.e.undecidedOnSubject = append(c.e.undecidedOnSubject, "the result returned at "+w.Pos(r.Pos())+" is a variable whose content was not determined")
 					}
 				}
+				// the result of calling a function value that a module helper built from the
+				// argument (return shifterOf(id)(x, y, v)): what it returns is not followed
+				if call, ok := resolve(r.Results[0]).(*ssa.Call); ok && calleeOf(call) == nil && !call.Call.IsInvoke() {
+					if mk, ok := resolve(call.Call.Value).(*ssa.Call); ok {
+						if g := calleeOf(mk); g != nil && c.e.w.InModule(g) {
+							built := false
+							for _, a := range mk.Call.Args {
+								if c.mentionsSubject(a, 0) {
+									built = true
+								}
+							}
+							if built {
+								if c.e.assumeReject {
+									continue
+								}
+								c.e.undecidedOnSubject = append(c.e.undecidedOnSubject, "the result returned at "+w.Pos(r.Pos())+" comes from a function value built from the argument by "+g.Name())
+							}
+						}
+					}
+				}
 				if call, ok := resolve(r.Results[0]).(*ssa.Call); ok {
 					if g := calleeOf(call); g != nil && c.e.w.InModule(g) {
 						mentions := false
